@@ -90,6 +90,41 @@ func phiLeaves(v ssa.Value) []valueWithGuards {
 			}
 			return
 		}
+		// the key is handed back by an unexported helper of the same package (a free-ID search moved into its own
+		// function): look at what the helper returns, under the guards of each of its return statements
+		if ex, ok := v.(*ssa.Extract); ok {
+			if call, ok := ex.Tuple.(*ssa.Call); ok {
+				if g := staticCallee(&call.Call); g != nil && g.Blocks != nil && g.Object() != nil && !g.Object().Exported() &&
+					fnPkgPath(g) == fnPkgPath(call.Parent()) && countInstrs(g) <= 80 && !takesLock(g) && !seen[v] {
+					seen[v] = true
+					n := 0
+					for _, b := range g.Blocks {
+						ret, ok := b.Instrs[len(b.Instrs)-1].(*ssa.Return)
+						if !ok || ex.Index >= len(ret.Results) {
+							continue
+						}
+						// a return that reports "not found" (a false / non-nil companion result) hands back no key
+						skip := false
+						for k, rv := range ret.Results {
+							if k == ex.Index {
+								continue
+							}
+							if bv, isB := constBool(rv); isB && !bv {
+								skip = true
+							}
+						}
+						if skip {
+							continue
+						}
+						n++
+						rec(ret.Results[ex.Index], append(append([]Guard{}, gs...), guardsOf(b)...), d+1)
+					}
+					if n > 0 {
+						return
+					}
+				}
+			}
+		}
 		out = append(out, valueWithGuards{v, gs})
 	}
 	rec(v, nil, 0)
